@@ -19,6 +19,44 @@ pub struct Resp {
     pub code: u16,
     /// None = no To-tag; Some(i) = tag "tag<i>"
     pub to_tag: Option<u8>,
+    /// what the peer (or a proxy on the path) changed in the headers it echoes; transaction matching looks at
+    /// the top Via branch and the CSeq method only, so such a response still belongs to the INVITE:
+    /// bit 0 = CSeq number differs, bit 1 = Call-ID differs, bit 2 = From differs (display name, tag),
+    /// bit 3 = top Via carries added received=/rport= parameters (what every RFC 3581 server does)
+    #[serde(default)]
+    pub mangle: u8,
+}
+
+/// the response as the peer sends it: `response_text` plus the case's header changes
+fn mangled_response(req: &WireMsg, code: u16, tag: Option<&str>, marker: &str, mangle: u8) -> Vec<u8> {
+    let plain = response_text(req, code, tag, &[marker.to_string()]);
+    if mangle == 0 {
+        return plain;
+    }
+    let text = String::from_utf8(plain).expect("ascii");
+    let mut out = String::new();
+    let mut first_via = true;
+    for line in text.split_inclusive("\r\n") {
+        let lower = line.to_ascii_lowercase();
+        if lower.starts_with("cseq:") && mangle & 1 != 0 {
+            let (n, m) = req.cseq().unwrap_or((1, "INVITE".into()));
+            out.push_str(&format!("CSeq: {} {m}\r\n", if n > 1000 { n - 977 } else { n + 4242 }));
+        } else if lower.starts_with("call-id:") && mangle & 2 != 0 {
+            out.push_str("Call-ID: someone-elses-call@198.51.100.99\r\n");
+        } else if lower.starts_with("from:") && mangle & 4 != 0 {
+            out.push_str("From: \"Mallory\" <sip:mallory@evil.example>;tag=zzz\r\n");
+        } else if lower.starts_with("via:") && first_via && mangle & 8 != 0 {
+            first_via = false;
+            out.push_str(line.trim_end());
+            out.push_str(";received=203.0.113.77;rport=40123\r\n");
+        } else {
+            if lower.starts_with("via:") {
+                first_via = false;
+            }
+            out.push_str(line);
+        }
+    }
+    out.into_bytes()
 }
 
 #[derive(Serialize, Deserialize, Clone, Debug, Hash)]
@@ -70,13 +108,13 @@ pub fn strategy() -> BoxedStrategy<Case> {
         1u32..u32::MAX,
         prop::collection::vec(any::<u16>(), 0..4),
         prop::option::of(prop_oneof![Just("198.51.100.7:5099".to_string()), Just("nat.example.com".to_string()), Just("[2001:db8::1]:5060".to_string())]),
-        prop::collection::vec((any::<u16>(), 0u64..40_000, any::<bool>(), any::<u16>(), prop::option::of(0u8..3)), 1..6),
+        prop::collection::vec((any::<u16>(), 0u64..40_000, any::<bool>(), any::<u16>(), prop::option::of(0u8..3), prop_oneof![2 => Just(0u8), 1 => 0u8..16, 1 => prop::sample::select(vec![1u8, 2, 4, 8])]), 1..6),
         any::<u8>(),
     )
         .prop_map(|(reliable, (us, fs, ts), call_id, cseq, rs, via_host_port, raw, rng)| {
             let mut t = 0;
             let mut responses = vec![];
-            for (i, (osel, rnd, use_rnd, csel, to_tag)) in raw.into_iter().enumerate() {
+            for (i, (osel, rnd, use_rnd, csel, to_tag, mangle)) in raw.into_iter().enumerate() {
                 let off = if use_rnd { rnd } else { OFFSETS[pick_idx(osel, OFFSETS.len())] };
                 t += if i == 0 { off.min(31_000).max(1) } else { off };
                 // keep clear of the INVITE retransmission instants and of the 32 s / 64*T1 edges (ties are don't-care)
@@ -87,6 +125,7 @@ pub fn strategy() -> BoxedStrategy<Case> {
                     t_ms: t,
                     code: CODES[pick_idx(csel, CODES.len())],
                     to_tag,
+                    mangle,
                 });
             }
             Case {
@@ -139,8 +178,9 @@ pub fn check(case: &Case, out: &mut CaseOut) {
         .map(|(i, r)| {
             let code = r.code;
             let tag = r.to_tag.map(|t| format!("tag{t}"));
+            let mangle = r.mangle;
             let f: Box<dyn Fn(&WireMsg) -> Vec<u8> + Send> = Box::new(move |req: &WireMsg| {
-                response_text(req, code, tag.as_deref(), &[format!("X-Seq: m{i}")])
+                mangled_response(req, code, tag.as_deref(), &format!("X-Seq: m{i}"), mangle)
             });
             (r.t_ms, f)
         })
@@ -396,6 +436,9 @@ pub fn check(case: &Case, out: &mut CaseOut) {
     if completed_at.is_some() {
         out.class("non-2xx-final");
     }
+    if case.responses.iter().any(|r| r.code >= 300 && r.mangle != 0) {
+        out.class("non-2xx final whose echoed headers differ from the INVITE's");
+    }
     if accepted_at.is_some() {
         out.class("2xx-final");
     }
@@ -421,7 +464,7 @@ pub fn property() -> Property {
     Property {
         fuzz: vec![],
         id: "C07",
-        rule: "cases = INVITE (Request-URI shapes incl. IPv6/params, From/To with display names, 0..3 Route values, optional Via sent-by override, random Call-ID/CSeq) x reliable/unreliable x 1..5 scripted responses (any class, To-tag none/3 tags, offsets around 32 s and 64*T1) under a paused clock. Non-trivial = INVITE carries a Route, or finals with different To-tags, or a retransmitted final; distinct by hash of the case.",
+        rule: "cases = INVITE (Request-URI shapes incl. IPv6/params, From/To with display names, 0..3 Route values, optional Via sent-by override, random Call-ID/CSeq) x reliable/unreliable x 1..5 scripted responses (any class, To-tag none/3 tags, offsets around 32 s and 64*T1, echoed CSeq number / Call-ID / From / top-Via parameters optionally changed by the peer) under a paused clock. Non-trivial = INVITE carries a Route, or finals with different To-tags, or a retransmitted final; distinct by hash of the case.",
         assumptions: vec![
             "timers on tokio's paused clock (hook H2); wire read back with the independent WireMsg parser and with ezk's parse_complete",
             "the ACK for a later non-2xx with a different To-tag must be sent but its To is not asserted; ACKs triggered by 1xx/2xx arriving in Completed are optional",
